@@ -474,6 +474,24 @@ def drive(prop_id, tier, seed_value, only=None, jobs=None, scale=1.0,
         if r["failure"]:
             failures.append((r["sub"], r["shard"], r["failure"]))
 
+    # ---- regression tier: saved shrunk failures of repaired defects ---------
+    reg_dir = os.path.join(VERIF_DIR, "regressions", prop_id)
+    regressions = 0
+    reg_failures = []
+    if os.path.isdir(reg_dir) and not only:
+        for fn in sorted(os.listdir(reg_dir)):
+            if not fn.endswith(".json"):
+                continue
+            with open(os.path.join(reg_dir, fn)) as f:
+                rp = json.load(f)
+            regressions += 1
+            info = run_replay(prop_id, rp["subcheck"], rp["case"])
+            if info is not None:
+                key = info.get("key")
+                if key is not None and key in [f["key"] for f in known]:
+                    continue
+                reg_failures.append((os.path.join(reg_dir, fn), rp["subcheck"], info))
+
     # ---- known-finding probes ------------------------------------------
     lines = []
     for f in known:
@@ -530,6 +548,11 @@ def drive(prop_id, tier, seed_value, only=None, jobs=None, scale=1.0,
             % (prop_id, path, sub_name, fl["info"]["type"],
                fl["info"]["message"].replace("\n", " ")[:300]))
 
+    for path, sub_name, info in reg_failures:
+        violation_lines.append(
+            "VIOLATION property=%s replay=%s subcheck=%s :: (regression replay) %s: %s"
+            % (prop_id, path, sub_name, info["type"], info["message"].replace("\n", " ")[:300]))
+
     # ---- evidence -----------------------------------------------------------
     total_eval = sum(s["evaluations"] for s in per_sub.values())
     all_keys = set()
@@ -573,6 +596,7 @@ def drive(prop_id, tier, seed_value, only=None, jobs=None, scale=1.0,
             "exhaustive": all(s.exhaustive for s in prop.subchecks),
             "subchecks": sub_out,
             "known_findings_reported": [l for l in lines if l.startswith("KNOWN-FINDING")],
+            "regression_replays_run": regressions,
         },
         "assumptions": prop.assumptions,
         "wall_s": round(time.time() - t0, 2),
